@@ -203,13 +203,116 @@ pub fn meta() -> CheckMeta {
         level: "exploration",
         rule: "function level: the real authenticate_client reading from a MemPipe in 5 fragmentation classes (whole, 1-byte drip, split after the hash, split inside the length, random with spurious Pending): all 256 single-bit flips of the right hash, single-byte deviations at every position (all 32x255 in the thorough tier), correct k-byte prefixes/suffixes for k=0..31, two-byte deviations whose differences cancel (same XOR mask, +1/-1, swapped bytes), hashes of related passwords, all-zero/all-one => must be rejected; valid preambles with declared padding at the boundaries + 500 random lengths (thorough: all 65536) followed by a sentinel frame => Ok and the sentinel must be exactly what is left; every truncation length of valid preambles => not Ok and no hang after EOF. End to end (real Server::listen + TcpProxyHandler, raw TLS client): a bad preamble followed by a perfectly valid Settings+SYN+destination+data must cause no Dial event, no target accept and no plaintext reply; positive controls must get a session. distinct_nontrivial = distinct (preamble, fragmentation class). End to end also: peers that send nothing / part of the right hash / a wrong hash with unfinished padding, then stall 6.5 s (thorough also 12, 31, 62 s) and then send a valid session: never a Destination/Dial event or a reply frame (the complete right hash is never sent, so no such peer is entitled to a session).".into(),
         assumptions: vec!["SHA-256 from the sha2 crate is used independently to compute expected hashes".into()],
-        floors: vec![("wrong_hash_preambles", 1000), ("valid_preambles", 400), ("truncated_preambles", 300), ("e2e_bad_preambles", 15), ("e2e_positive_controls", 4), ("e2e_stalled_preambles", 3)],
+        floors: vec![("wrong_hash_preambles", 1000), ("valid_preambles", 400), ("truncated_preambles", 300), ("e2e_bad_preambles", 15), ("e2e_positive_controls", 4), ("e2e_stalled_preambles", 3), ("e2e_constructor_password_probes", 30)],
         exhaustive: false,
     }
 }
 
 // ---------------------------------------------------------------------------
 // end to end: real Server::listen + default TcpProxyHandler, raw TLS client
+
+
+/// Servers built with either constructor and passwords that contain blank space at their ends: the expected hash
+/// is that of the configured password, byte for byte. Returns through `rep`.
+async fn constructor_password_grid(rep: &mut Report, tport: u16, accepts: std::sync::Arc<std::sync::Mutex<Vec<(std::net::SocketAddr, tokio::time::Instant)>>>) {
+    use crate::netkit;
+    use crate::refcodec;
+    use anytls_rs::verif::Event;
+    use std::net::SocketAddr;
+    use tokio::io::{AsyncReadExt, AsyncWriteExt};
+    let passwords = ["pw-plain", " pw-leading", "pw-trailing ", "pw-newline\n", "\tpw tabs\t", "  "];
+    let mut uniq = 0u32;
+    for reloadable in [false, true] {
+        for pw in passwords {
+            // start a server of this kind
+            let addr = format!("127.0.0.1:{}", netkit::free_port());
+            let Ok(cfg) = anytls_rs::util::tls::create_server_config() else {
+                rep.inconclusive("cannot build a TLS config");
+                return;
+            };
+            let acceptor = std::sync::Arc::new(tokio_rustls::TlsAcceptor::from(cfg));
+            let server = std::sync::Arc::new(if reloadable {
+                anytls_rs::server::Server::new_with_reloadable_tls(pw, std::sync::Arc::new(std::sync::RwLock::new(acceptor)), engine::default_padding(), None)
+            } else {
+                anytls_rs::server::Server::new(pw, acceptor, engine::default_padding(), None)
+            });
+            let a2 = addr.clone();
+            let h = tokio::spawn(async move {
+                let _ = server.listen(&a2).await;
+            });
+            if !netkit::wait_listening(&addr).await {
+                h.abort();
+                rep.inconclusive("server did not start");
+                continue;
+            }
+            // candidates: the configured password (must work) and near misses (must not)
+            let mut cands: Vec<(String, bool)> = vec![(pw.to_string(), true)];
+            for other in [pw.trim().to_string(), pw.trim_end().to_string(), pw.trim_start().to_string(), format!("{pw} "), format!(" {pw}")] {
+                if other != pw && !cands.iter().any(|(c, _)| *c == other) {
+                    cands.push((other, false));
+                }
+            }
+            for (cand, good) in cands {
+                uniq += 1;
+                let ip = netkit::uniq_ip(46, uniq);
+                let dest = SocketAddr::new(ip.into(), tport);
+                let before = anytls_rs::verif::event_count();
+                let hash: [u8; 32] = Sha256::digest(cand.as_bytes()).into();
+                let r: Result<Vec<u8>, String> = async {
+                    let mut tls = netkit::raw_tls_connect(&addr).await?;
+                    let mut bytes = hash.to_vec();
+                    bytes.extend_from_slice(&30u16.to_be_bytes());
+                    bytes.extend_from_slice(&[0u8; 30]);
+                    bytes.extend_from_slice(&refcodec::encode(refcodec::SETTINGS, 0, &engine::settings_payload("x")));
+                    bytes.extend_from_slice(&refcodec::encode(refcodec::SYN, 1, &[]));
+                    let mut d = vec![1u8];
+                    d.extend_from_slice(&ip.octets());
+                    d.extend_from_slice(&tport.to_be_bytes());
+                    bytes.extend_from_slice(&refcodec::encode(refcodec::PSH, 1, &d));
+                    tls.write_all(&bytes).await.map_err(|e| e.to_string())?;
+                    let _ = tls.flush().await;
+                    let mut got = Vec::new();
+                    let mut buf = [0u8; 4096];
+                    let _ = tokio::time::timeout(Duration::from_millis(if good { 1500 } else { 800 }), async {
+                        loop {
+                            match tls.read(&mut buf).await {
+                                Ok(0) | Err(_) => break,
+                                Ok(n) => {
+                                    got.extend_from_slice(&buf[..n]);
+                                    if refcodec::parse_all(&got).0.iter().any(|f| f.cmd == refcodec::SYNACK) {
+                                        break;
+                                    }
+                                }
+                            }
+                        }
+                    })
+                    .await;
+                    Ok(got)
+                }
+                .await;
+                tokio::time::sleep(Duration::from_millis(30)).await;
+                let events: Vec<Event> = anytls_rs::verif::events().into_iter().skip(before).collect();
+                let dialled = events.iter().any(|e| matches!(e, Event::Dial { addr, .. } if *addr == dest));
+                let accepted = accepts.lock().unwrap().iter().any(|(a, _)| *a == dest);
+                let case = json!({"kind": "c06-ctor-grid", "constructor": if reloadable { "new_with_reloadable_tls" } else { "new" }, "configured_password": pw, "presented_password": cand});
+                rep.case(Some(hash_str(&case.to_string())));
+                rep.add("e2e_constructor_password_probes", 1);
+                match r {
+                    Err(e) => rep.inconclusive(format!("constructor grid: {e}")),
+                    Ok(got) => {
+                        let answered = !got.is_empty();
+                        if good && !(dialled && accepted) {
+                            rep.violate("auth", &format!("e2e_{}_password_with_blank_ends", if reloadable { "reloadable_tls_server" } else { "plain_server" }), "right_password_got_no_session", format!("server configured with password {pw:?}: a client presenting the hash of exactly that password got no session (dialled={dialled}, target accepted={accepted}, {} reply bytes)", got.len()), case);
+                        } else if !good && (dialled || accepted || answered) {
+                            rep.violate("auth", &format!("e2e_{}_password_with_blank_ends", if reloadable { "reloadable_tls_server" } else { "plain_server" }), "session_without_password", format!("server configured with password {pw:?}: the hash of {cand:?} was accepted (dialled={dialled}, target accepted={accepted}, {} reply bytes)", got.len()), case);
+                        }
+                    }
+                }
+            }
+            h.abort();
+        }
+    }
+}
 
 pub fn run_e2e(ctx: Ctx) -> Report {
     use crate::netkit::{self, Target};
@@ -374,6 +477,7 @@ pub fn run_e2e(ctx: Ctx) -> Report {
                 }
             }
         }
+        constructor_password_grid(&mut rep, tport, accepts.clone()).await;
         rep
     });
     for p in run::panic_log() {
